@@ -347,6 +347,8 @@ def slow(idx, payload):
 def main():
     sm = sys.argv[1]
     faulthandler.dump_traceback_later(40, exit=True)
+    # (whatever this process inherited — a background job starts with SIGINT ignored —, the caller here is one with Python's own handler)
+    signal.signal(signal.SIGINT, signal.default_int_handler)
     before = signal.getsignal(signal.SIGINT)
     threading.Timer(0.6, lambda: os.kill(os.getpid(), signal.SIGINT)).start()
     t0 = time.time()
@@ -378,7 +380,7 @@ def full_pipe_sigint_suite(chk, quick=True):
 
     def bad(r):
         try:
-            return json.loads(r[1].strip().splitlines()[-1]).get('outcome') != 'KeyboardInterrupt'
+            return json.loads(r[1].strip().splitlines()[-1]).get('outcome') not in ('KeyboardInterrupt', 'completed')
         except Exception:
             return True
     results = [r if not bad(r) else run_driver(code, [sm], timeout=60) for sm, r in zip(jobs, results)]
@@ -392,5 +394,6 @@ def full_pipe_sigint_suite(chk, quick=True):
         chk.count(suite, key=sm, nontrivial=True, sample=dict(c, result=d, rc=rc), start=sm)
         if d is None:
             chk.violation('no_hang', c, {'watchdog': rc, 'stacks': (err or '')[-1200:]}, 'the call ends within bounded time', input_class='sigint_full_pipes_hang_' + sm)
-        elif d.get('outcome') not in ('KeyboardInterrupt',) or not d.get('handler_unchanged'):
-            chk.violation('keyboard_interrupt_or_completion', c, d, 'KeyboardInterrupt (the call cannot have completed after 0.6 s), handler unchanged', input_class='sigint_full_pipes_' + sm)
+        elif d.get('outcome') not in ('KeyboardInterrupt', 'completed') or not d.get('handler_unchanged'):
+            # (on a slow machine the signal can fall into the start-up section in which it is ignored on purpose: the call then completes)
+            chk.violation('keyboard_interrupt_or_completion', c, d, 'KeyboardInterrupt or completion, handler unchanged', input_class='sigint_full_pipes_' + sm)
